@@ -433,5 +433,450 @@ theorem Iter.new_items (s : Subset) : (Iter.new s).items = s.indices := by
   simp only [Iter.items, Iter.new, Nat.sub_zero, numElements, ← List.range_eq_range', Subset.indices]
   rw [← range_map_unravel, List.map_map]
   rfl
+open Subset
+
+/-! ### subset algebra -/
+theorem overlap_dim (x oa na ob nb : Nat) :
+    (decide (max oa ob ≤ x) && decide (x < max oa ob + (min (oa + na) (ob + nb) - max oa ob))) =
+      ((decide (oa ≤ x) && decide (x < oa + na)) && (decide (ob ≤ x) && decide (x < ob + nb))) := by
+  rw [Bool.eq_iff_iff]; simp only [Bool.and_eq_true, decide_eq_true_eq]; omega
+
+theorem mem_overlap (i oa na ob nb : List Nat) (ha : oa.length = na.length) (hb : ob.length = nb.length)
+    (hr : oa.length = ob.length) :
+    mem i (zipMax oa ob) (zipSub (zipMin (addIdx oa na) (addIdx ob nb)) (zipMax oa ob)) =
+      (mem i oa na && mem i ob nb) := by
+  induction i generalizing oa na ob nb with
+  | nil =>
+    cases oa <;> cases na <;> (try (simp at ha; done)) <;> cases ob <;> (try (simp at hr; done)) <;>
+      cases nb <;> (try (simp at hb; done)) <;> simp [mem, zipMax, zipMin, zipSub, addIdx]
+  | cons x xs ih =>
+    cases oa <;> cases na <;> (try (simp at ha; done)) <;> cases ob <;> (try (simp at hr; done)) <;>
+      cases nb <;> (try (simp at hb; done))
+    · simp [mem, zipMax, zipMin, zipSub, addIdx]
+    · rename_i o1 os1 n1 ns1 o2 os2 n2 ns2
+      simp only [List.length_cons, Nat.add_right_cancel_iff] at ha hb hr
+      simp only [mem, zipMax, zipMin, zipSub, addIdx]
+      rw [ih os1 ns1 os2 ns2 ha hb hr]
+      rw [overlap_dim]
+      cases mem xs os1 ns1 <;> cases mem xs os2 ns2 <;> simp
+
+theorem zipUnderflow_any (x y : List Nat) (h : zipUnderflow x y = true) :
+    (zipSub x y).any (· == 0) = true := by
+  induction x generalizing y with
+  | nil => simp [zipUnderflow] at h
+  | cons a as ih =>
+    cases y with
+    | nil => simp [zipUnderflow] at h
+    | cons b bs =>
+      simp only [zipUnderflow, Bool.or_eq_true, decide_eq_true_eq] at h
+      simp only [zipSub, List.any_cons, Bool.or_eq_true, beq_iff_eq]
+      rcases h with h | h
+      · left; omega
+      · right; exact ih bs h
+
+theorem bound_dim (x o n e : Nat) :
+    (decide (min o e ≤ x) && decide (x < min o e + (min (o + n) e - min o e))) =
+      ((decide (o ≤ x) && decide (x < o + n)) && decide (x < e)) := by
+  rw [Bool.eq_iff_iff]; simp only [Bool.and_eq_true, decide_eq_true_eq]; omega
+
+theorem mem_bound (i o n e : List Nat) (h : o.length = n.length) (he : e.length = o.length) :
+    mem i (zipMin o e) (zipSub (zipMin (addIdx o n) e) (zipMin o e)) = (mem i o n && inB i e) := by
+  induction i generalizing o n e with
+  | nil =>
+    cases o <;> cases n <;> (try (simp at h; done)) <;> cases e <;> (try (simp at he; done)) <;>
+      simp [mem, zipMin, zipSub, addIdx, inB]
+  | cons x xs ih =>
+    cases o <;> cases n <;> (try (simp at h; done)) <;> cases e <;> (try (simp at he; done))
+    · simp [mem, zipMin, zipSub, addIdx]
+    · rename_i o1 os n1 ns e1 es
+      simp only [List.length_cons, Nat.add_right_cancel_iff] at h he
+      simp only [mem, zipMin, zipSub, addIdx, inB]
+      rw [ih os ns es h he, bound_dim]
+      cases mem xs os ns <;> cases inB xs es <;> simp
+
+theorem mem_relativeTo (i st sh o : List Nat) (h : st.length = sh.length) (ho : o.length = st.length)
+    (hu : zipUnderflow st o = false) (hi : i.length ≤ st.length) :
+    mem i (zipSub st o) sh = mem (addIdx i o) st sh := by
+  induction i generalizing st sh o with
+  | nil =>
+    cases st <;> cases sh <;> (try (simp at h; done)) <;> cases o <;> (try (simp at ho; done)) <;>
+      simp [mem, zipSub, addIdx]
+  | cons x xs ih =>
+    cases st <;> cases sh <;> (try (simp at h; done)) <;> cases o <;> (try (simp at ho; done))
+    · simp at hi
+    · rename_i s1 ss n1 ns o1 os
+      simp only [List.length_cons, Nat.add_right_cancel_iff, Nat.add_le_add_iff_right] at h ho hi
+      simp only [zipUnderflow, Bool.or_eq_false_iff, decide_eq_false_iff_not] at hu
+      simp only [mem, zipSub, addIdx]
+      rw [ih ss ns os h ho hu.2 hi]
+      congr 1
+      rw [Bool.eq_iff_iff]; simp only [Bool.and_eq_true, decide_eq_true_eq]; omega
+
+theorem mem_of_allLe (i so sn oo on : List Nat) (hs : so.length = sn.length) (ho : oo.length = on.length)
+    (hr : so.length = oo.length) (h1 : allLe oo so = true)
+    (h2 : allLe (addIdx so sn) (addIdx oo on) = true) (hm : mem i so sn = true) : mem i oo on = true := by
+  induction i generalizing so sn oo on with
+  | nil =>
+    cases so <;> cases sn <;> (try (simp at hs; done)) <;> cases oo <;> (try (simp at hr; done)) <;>
+      cases on <;> (try (simp at ho; done)) <;> simp_all [mem]
+  | cons x xs ih =>
+    cases so <;> cases sn <;> (try (simp at hs; done)) <;> cases oo <;> (try (simp at hr; done)) <;>
+      cases on <;> (try (simp at ho; done))
+    · simp [mem] at hm
+    · rename_i s1 ss n1 ns o1 os m1 ms
+      simp only [List.length_cons, Nat.add_right_cancel_iff] at hs ho hr
+      simp only [allLe, addIdx, Bool.and_eq_true, decide_eq_true_eq] at h1 h2
+      simp only [mem, Bool.and_eq_true, decide_eq_true_eq] at hm ⊢
+      exact ⟨⟨by omega, by omega⟩, ih ss ns os ms hs ho hr h1.2 h2.2 hm.2⟩
+
+theorem mem_of_any_zero (i st sh : List Nat) (h : sh.any (· == 0) = true) : mem i st sh = false := by
+  induction i generalizing st sh with
+  | nil => cases st <;> cases sh <;> simp_all [mem]
+  | cons x xs ih =>
+    cases st with
+    | nil => simp [mem]
+    | cons o os =>
+      cases sh with
+      | nil => simp [mem]
+      | cons n ns =>
+        simp only [List.any_cons, Bool.or_eq_true, beq_iff_eq] at h
+        simp only [mem, Bool.and_eq_false_iff, decide_eq_false_iff_not]
+        rcases h with h | h
+        · left; omega
+        · right; exact ih os ns h
+
+theorem mem_start (st sh : List Nat) (h : st.length = sh.length) (hne : sh.any (· == 0) = false) :
+    mem st st sh = true := by
+  induction st generalizing sh with
+  | nil => cases sh <;> simp_all [mem]
+  | cons o os ih =>
+    cases sh with
+    | nil => simp at h
+    | cons n ns =>
+      simp only [List.any_cons, Bool.or_eq_false_iff, beq_eq_false_iff_ne] at hne
+      simp only [List.length_cons, Nat.add_right_cancel_iff] at h
+      simp only [mem, Bool.and_eq_true, decide_eq_true_eq]
+      exact ⟨⟨by omega, by omega⟩, ih ns h hne.2⟩
+
+theorem mem_last (st sh : List Nat) (h : st.length = sh.length) (hne : sh.any (· == 0) = false) :
+    mem ((addIdx st sh).map (· - 1)) st sh = true := by
+  induction st generalizing sh with
+  | nil => cases sh <;> simp_all [mem, addIdx]
+  | cons o os ih =>
+    cases sh with
+    | nil => simp at h
+    | cons n ns =>
+      simp only [List.any_cons, Bool.or_eq_false_iff, beq_eq_false_iff_ne] at hne
+      simp only [List.length_cons, Nat.add_right_cancel_iff] at h
+      simp only [addIdx, List.map_cons, mem, Bool.and_eq_true, decide_eq_true_eq]
+      exact ⟨⟨by omega, by omega⟩, ih ns h hne.2⟩
+
+theorem allLe_of_mem (i o n : List Nat) (h : mem i o n = true) : allLe o i = true := by
+  induction i generalizing o n with
+  | nil => cases o <;> simp [allLe]
+  | cons x xs ih =>
+    cases o with
+    | nil => simp [allLe]
+    | cons o os =>
+      cases n with
+      | nil => simp [mem] at h
+      | cons n ns =>
+        simp only [mem, Bool.and_eq_true, decide_eq_true_eq] at h
+        simp only [allLe, Bool.and_eq_true, decide_eq_true_eq]
+        exact ⟨h.1.1, ih os ns h.2⟩
+
+theorem allLe_end_of_mem_last (so sn oo on : List Nat) (hne : sn.any (· == 0) = false)
+    (h : mem ((addIdx so sn).map (· - 1)) oo on = true) :
+    allLe (addIdx so sn) (addIdx oo on) = true := by
+  induction so generalizing sn oo on with
+  | nil => simp [addIdx, allLe]
+  | cons s ss ih =>
+    cases sn with
+    | nil => simp [addIdx, allLe]
+    | cons n ns =>
+      cases oo with
+      | nil => simp [addIdx, allLe]
+      | cons o os =>
+        cases on with
+        | nil => simp [addIdx, allLe]
+        | cons m ms =>
+          simp only [List.any_cons, Bool.or_eq_false_iff, beq_eq_false_iff_ne] at hne
+          simp only [addIdx, List.map_cons, mem, Bool.and_eq_true, decide_eq_true_eq] at h
+          simp only [addIdx, allLe, Bool.and_eq_true, decide_eq_true_eq]
+          exact ⟨by omega, ih ns os ms hne.2 h.2⟩
+
+theorem inB_of_allLe_end (i st sh arr : List Nat) (hl : st.length = arr.length)
+    (h : allLe (addIdx st sh) arr = true) (hm : mem i st sh = true) : inB i arr = true := by
+  induction i generalizing st sh arr with
+  | nil =>
+    cases st <;> cases sh <;> (try (simp [mem] at hm; done)) <;> cases arr <;> (try (simp at hl; done))
+    rfl
+  | cons x xs ih =>
+    cases st <;> cases sh <;> (try (simp [mem] at hm; done)) <;> cases arr <;> (try (simp at hl; done))
+    rename_i o os n ns a as
+    simp only [List.length_cons, Nat.add_right_cancel_iff] at hl
+    simp only [addIdx, allLe, Bool.and_eq_true, decide_eq_true_eq] at h
+    simp only [mem, Bool.and_eq_true, decide_eq_true_eq] at hm
+    simp only [inB, Bool.and_eq_true, decide_eq_true_eq]
+    exact ⟨by omega, ih os ns as hl h.2 hm.2⟩
+
+theorem allLe_end_of_inB_last (st sh arr : List Nat) (hne : sh.any (· == 0) = false)
+    (h : inB ((addIdx st sh).map (· - 1)) arr = true) : allLe (addIdx st sh) arr = true := by
+  induction st generalizing sh arr with
+  | nil => simp [addIdx, allLe]
+  | cons o os ih =>
+    cases sh with
+    | nil => simp [addIdx, allLe]
+    | cons n ns =>
+      cases arr with
+      | nil => simp [addIdx, allLe]
+      | cons a as =>
+        simp only [List.any_cons, Bool.or_eq_false_iff, beq_eq_false_iff_ne] at hne
+        simp only [addIdx, List.map_cons, inB, Bool.and_eq_true, decide_eq_true_eq] at h
+        simp only [addIdx, allLe, Bool.and_eq_true, decide_eq_true_eq]
+        exact ⟨by omega, ih ns as hne.2 h.2⟩
+open Subset
+
+/-! ### contiguous runs -/
+/-- linear indices (in `arr`) of the box `sh` translated by `st` -/
+def linIdx (st sh arr : List Nat) : List Nat :=
+  ((boxIndices sh).map (fun i => addIdx i st)).map (fun i => ravel i arr)
+
+theorem linIdx_cons (o : Nat) (os : List Nat) (n : Nat) (ns : List Nat) (a : Nat) (as : List Nat) :
+    linIdx (o :: os) (n :: ns) (a :: as) =
+      (List.range n).flatMap (fun k => (linIdx os ns as).map (fun r => (k + o) * prod as + r)) := by
+  simp only [linIdx, boxIndices, List.map_flatMap, List.map_map]
+  rfl
+
+theorem flatMap_range'_map_add (l : List Nat) (c ce : Nat) :
+    (l.map (fun r => c + r)).flatMap (fun r => List.range' r ce) =
+      (l.flatMap (fun r => List.range' r ce)).map (fun r => c + r) := by
+  simp only [List.flatMap_map, List.map_flatMap]
+  apply flatMap_congr'
+  intro r _
+  rw [List.range'_eq_map_range, List.range'_eq_map_range, List.map_map]
+  apply List.map_congr_left
+  intro x _
+  simp [Nat.add_assoc]
+
+theorem contigAux_length (st sh arr : List Nat) (h1 : st.length = sh.length) (h2 : st.length = arr.length) :
+    (contigAux st sh arr).2.2.length = st.length := by
+  induction st generalizing sh arr with
+  | nil => cases sh <;> cases arr <;> simp [contigAux]
+  | cons o os ih =>
+    cases sh with
+    | nil => simp at h1
+    | cons n ns =>
+      cases arr with
+      | nil => simp at h2
+      | cons a as =>
+        simp only [List.length_cons, Nat.add_right_cancel_iff] at h1 h2
+        have := ih ns as h1 h2
+        simp only [contigAux]
+        split <;> simp [this]
+
+/-- the invariant of the right-to-left fold -/
+theorem contigAux_spec (st sh arr : List Nat) (h1 : st.length = sh.length) (h2 : st.length = arr.length) :
+    (linIdx st (contigAux st sh arr).2.2 arr).flatMap (fun r => List.range' r (contigAux st sh arr).2.1)
+        = linIdx st sh arr ∧
+    ((contigAux st sh arr).1 = true →
+      linIdx st (contigAux st sh arr).2.2 arr = [0] ∧ (contigAux st sh arr).2.1 = prod arr) := by
+  induction st generalizing sh arr with
+  | nil =>
+    cases sh <;> cases arr <;> (try (simp at h1; done)) <;> (try (simp at h2; done))
+    simp [contigAux, linIdx, boxIndices, addIdx, ravel]
+  | cons o os ih =>
+    cases sh with
+    | nil => simp at h1
+    | cons n ns =>
+      cases arr with
+      | nil => simp at h2
+      | cons a as =>
+        simp only [List.length_cons, Nat.add_right_cancel_iff] at h1 h2
+        obtain ⟨ih1, ih2⟩ := ih ns as h1 h2
+        simp only [contigAux]
+        cases hc : (contigAux os ns as).1 with
+        | false =>
+          simp only [Bool.false_eq_true, if_false, false_implies, and_true]
+          rw [linIdx_cons, linIdx_cons, List.flatMap_assoc]
+          apply flatMap_congr'
+          intro k _
+          rw [flatMap_range'_map_add, ih1]
+        | true =>
+          obtain ⟨e1, e2⟩ := ih2 hc
+          simp only [if_true]
+          have hL : linIdx (o :: os) (1 :: (contigAux os ns as).2.2) (a :: as) = [o * prod as] := by
+            rw [linIdx_cons, e1]; simp
+          rw [e1, e2] at ih1
+          refine ⟨?_, ?_⟩
+          · rw [hL, linIdx_cons, ← ih1, e2]
+            simp only [List.flatMap_cons, List.flatMap_nil, List.append_nil]
+            rw [List.range'_eq_map_range, Nat.mul_comm (prod as) n, range_mul_map]
+            apply flatMap_congr'
+            intro k _
+            rw [List.range'_eq_map_range, List.map_map]
+            apply List.map_congr_left
+            intro x _
+            simp [Nat.add_mul, Nat.add_comm, Nat.add_left_comm]
+          · intro hh
+            simp only [Bool.and_eq_true, beq_iff_eq] at hh
+            rw [hL, e2, hh.1, hh.2]
+            simp [Nat.mul_comm]
+
+theorem Subset.contiguous_starts (s : Subset) (arr : Shape) :
+    (s.contiguous arr).starts = ⟨s.start, (contigAux s.start s.shape arr).2.2⟩ := rfl
+
+theorem Subset.contiguous_run (s : Subset) (arr : Shape) :
+    (s.contiguous arr).run = (contigAux s.start s.shape arr).2.1 := rfl
+
+theorem Subset.linearised_eq_linIdx (s : Subset) (arr : Shape) :
+    s.linearised arr = linIdx s.start s.shape arr := by
+  simp only [Subset.linearised, Iter.new_items, Subset.indices, linIdx]
+
+theorem Subset.contiguousLinearised_eq_linIdx (s : Subset) (arr : Shape) :
+    s.contiguousLinearised arr = linIdx s.start (contigAux s.start s.shape arr).2.2 arr := by
+  simp only [Subset.contiguousLinearised, Subset.contiguousIndices, Iter.new_items, Subset.indices, linIdx,
+    Subset.contiguous_starts]
+
+theorem Subset.contiguous_tiles (s : Subset) (arr : Shape) (h : s.start.length = s.shape.length)
+    (hr : s.start.length = arr.length) :
+    (s.contiguousLinearised arr).flatMap (fun r => List.range' r (s.contiguous arr).run) =
+      s.linearised arr := by
+  rw [s.contiguousLinearised_eq_linIdx, s.linearised_eq_linIdx, s.contiguous_run]
+  exact (contigAux_spec s.start s.shape arr h hr).1
+
+/-- `range' (r*es) (run*es)` is the concatenation of the `es`-byte cells of `range' r run` -/
+theorem range'_mul_cells (r run es : Nat) :
+    List.range' (r * es) (run * es) = (List.range' r run).flatMap (fun k => List.range' (k * es) es) := by
+  induction run generalizing r with
+  | zero => simp
+  | succ n ih =>
+    have e : (n + 1) * es = es + n * es := by rw [Nat.succ_mul, Nat.add_comm]
+    rw [List.range'_succ, List.flatMap_cons, ← ih, e, ← List.range'_append]
+    simp [Nat.add_mul]
+
+theorem take_drop_map_some {α} (xs : List α) (i r : Nat) (h : ∀ k ∈ List.range' i r, k < xs.length) :
+    ((xs.drop i).take r).map some = (List.range' i r).map (fun k => xs[k]?) := by
+  induction r generalizing i with
+  | zero => simp
+  | succ n ih =>
+    have hi : i < xs.length := h i (by simp [List.mem_range'_1])
+    rw [List.range'_succ, List.map_cons, ← ih (i + 1) (fun k hk => h k (by
+      simp only [List.mem_range'_1] at hk ⊢; omega))]
+    rw [List.drop_eq_getElem_cons hi, List.take_succ_cons, List.map_cons, List.getElem?_eq_getElem hi]
+open Subset
+
+/-! ### chunks -/
+theorem chunk_dim (st sh cs c : Nat) (hcs : 0 < cs) (hsh : 0 < sh) :
+    (st / cs ≤ c ∧ c < st / cs + ((st + sh - 1) / cs - st / cs + 1)) ↔
+      ∃ i, (st ≤ i ∧ i < st + sh) ∧ (c * cs ≤ i ∧ i < c * cs + cs) := by
+  constructor
+  · rintro ⟨h1, h2⟩
+    have hmono : st / cs ≤ (st + sh - 1) / cs := Nat.div_le_div_right (by omega)
+    have h3 : c ≤ (st + sh - 1) / cs := by omega
+    have h4 : c * cs ≤ st + sh - 1 := (Nat.le_div_iff_mul_le hcs).1 h3
+    have h5 : st < (c + 1) * cs := by
+      have : st / cs < c + 1 := by omega
+      exact (Nat.div_lt_iff_lt_mul hcs).1 this
+    rw [Nat.add_mul] at h5
+    refine ⟨max st (c * cs), ?_⟩
+    omega
+  · rintro ⟨i, ⟨h1, h2⟩, h3, h4⟩
+    have hc : i / cs = c := by
+      apply Nat.div_eq_of_lt_le
+      · exact h3
+      · rw [Nat.add_mul]; omega
+    have hmono : st / cs ≤ (st + sh - 1) / cs := Nat.div_le_div_right (by omega)
+    have ha : st / cs ≤ i / cs := Nat.div_le_div_right h1
+    have hb : i / cs ≤ (st + sh - 1) / cs := Nat.div_le_div_right (by omega)
+    omega
+
+theorem mem_chunkBox (c st sh cs : List Nat) (h1 : st.length = sh.length) (h2 : cs.length = st.length)
+    (hpos : ∀ k ∈ cs, 0 < k) (hne : sh.any (· == 0) = false) :
+    mem c (zipDiv st cs) ((zipSub (zipDiv ((addIdx st sh).map (· - 1)) cs) (zipDiv st cs)).map (· + 1)) = true ↔
+      (c.length = st.length ∧ ∃ i, mem i st sh = true ∧ mem i (zipMul c cs) cs = true) := by
+  induction c generalizing st sh cs with
+  | nil =>
+    cases st <;> cases sh <;> (try (simp at h1; done)) <;> cases cs <;> (try (simp at h2; done))
+    · simp only [zipDiv, addIdx, List.map_nil, zipSub, mem, List.length_nil, zipMul, true_and, true_iff]
+      exact ⟨[], rfl, rfl⟩
+    · simp [mem, zipDiv]
+  | cons c0 ct ih =>
+    cases st <;> cases sh <;> (try (simp at h1; done)) <;> cases cs <;> (try (simp at h2; done))
+    · simp [mem, zipDiv]
+    · rename_i o os n ns k ks
+      simp only [List.length_cons, Nat.add_right_cancel_iff] at h1 h2
+      simp only [List.any_cons, Bool.or_eq_false_iff, beq_eq_false_iff_ne] at hne
+      have hk : 0 < k := hpos k (by simp)
+      have hn : 0 < n := by omega
+      have ih' := ih os ns ks h1 h2 (fun k hk => hpos k (by simp [hk])) hne.2
+      simp only [zipDiv, addIdx, List.map_cons, zipSub, mem, Bool.and_eq_true, decide_eq_true_eq,
+        List.length_cons, Nat.add_right_cancel_iff, zipMul]
+      rw [ih', chunk_dim o n k c0 hk hn]
+      constructor
+      · rintro ⟨⟨i0, hi0, hi0'⟩, hl, it, hit, hit'⟩
+        refine ⟨hl, i0 :: it, ?_, ?_⟩
+        · simp only [mem, Bool.and_eq_true, decide_eq_true_eq]; exact ⟨hi0, hit⟩
+        · simp only [mem, Bool.and_eq_true, decide_eq_true_eq]; exact ⟨hi0', hit'⟩
+      · rintro ⟨hl, i, hi, hi'⟩
+        cases i with
+        | nil => simp [mem] at hi
+        | cons i0 it =>
+          simp only [mem, Bool.and_eq_true, decide_eq_true_eq] at hi hi'
+          exact ⟨⟨i0, hi.1, hi'.1⟩, hl, it, hi.2, hi'.2⟩
+
+theorem prod_replicate_zero (d : Nat) (h : 0 < d) : prod (List.replicate d 0) = 0 := by
+  cases d with
+  | zero => omega
+  | succ d => simp [List.replicate_succ]
+
+theorem Subset.chunks_fst (s : Subset) (cs : Shape) :
+    (s.chunks cs).map (·.1) = (s.chunkBox cs).indices := by
+  simp only [Subset.chunks, Iter.new_items, List.map_map]
+  exact List.map_id _
+
+theorem Subset.chunkBox_nonempty (s : Subset) (cs : Shape) (h : s.isEmpty = false) :
+    s.chunkBox cs = ⟨zipDiv s.start cs,
+      (zipSub (zipDiv ((addIdx s.start s.shape).map (· - 1)) cs) (zipDiv s.start cs)).map (· + 1)⟩ := by
+  simp [Subset.chunkBox, Subset.endInc, h]
+
+theorem Subset.chunkBox_empty (s : Subset) (cs : Shape) (h : s.isEmpty = true) :
+    s.chunkBox cs = Subset.newEmpty s.rank := by
+  simp [Subset.chunkBox, Subset.endInc, h]
+
+theorem Subset.chunkBox_wf (s : Subset) (cs : Shape) (h : s.wf = true) (hc : cs.length = s.rank) :
+    (s.chunkBox cs).wf = true := by
+  simp only [wf, rank, beq_iff_eq] at h hc
+  cases he : s.isEmpty with
+  | true => rw [s.chunkBox_empty cs he]; simp [newEmpty, wf]
+  | false =>
+    rw [s.chunkBox_nonempty cs he]
+    simp only [wf, beq_iff_eq, zipDiv_length, List.length_map, zipSub_length, addIdx_length]
+    omega
+
+theorem Subset.contains_chunkBox (s : Subset) (cs : Shape) (h : s.wf = true) (hc : cs.length = s.rank)
+    (hpos : ∀ k ∈ cs, 0 < k) (c : Idx) :
+    (s.chunkBox cs).contains c = true ↔
+      (c.length = s.rank ∧ ∃ i, s.contains i = true ∧ (Subset.mk (zipMul c cs) cs).contains i = true) := by
+  simp only [wf, beq_iff_eq] at h
+  simp only [rank] at hc
+  cases he : s.isEmpty with
+  | true =>
+    rw [s.chunkBox_empty cs he]
+    simp only [isEmpty] at he
+    have hd : 0 < s.rank := by
+      simp only [rank, h]
+      cases hs : s.shape with
+      | nil => simp [hs] at he
+      | cons _ _ => simp
+    have h0 : (List.replicate s.rank 0).any (· == 0) = true := by
+      cases hr : s.rank with
+      | zero => omega
+      | succ d => simp [List.replicate_succ]
+    simp only [contains, newEmpty, mem_of_any_zero _ _ _ h0, mem_of_any_zero _ _ _ he]
+    simp
+  | false =>
+    rw [s.chunkBox_nonempty cs he]
+    exact mem_chunkBox c s.start s.shape cs h hc hpos he
 
 end Zarrs
